@@ -4,8 +4,8 @@
    ConfirmMeta.Confirm() completes the message):
      the storage confirm (relay) of key k is preceded, in the event sequence, by a completed batch that Sets k,
      OR by the snapshot of a persist in which the add of k was cancelled by a del of k - and such a snapshot only
-     happens when k was both Added and Del-requested by labels of the run (the message was already settled by
-     its consumer: nothing needs to be durable).
+     happens when k was Added and then either Del-requested or its queue purged by labels of the run (PurgeQueue
+     cancels pending adds by a del of the same key): the message was already settled, nothing needs to be durable.
    (Numbering, exactly-once and the queue-push clauses of C05 are the lead's.) *)
 From Coq Require Import String List NArith Bool.
 Import ListNotations.
@@ -28,13 +28,13 @@ Print Assumptions C05_store_not_early.
 (* EvCancelled is a ghost event of the snapshot; it means what it says *)
 Theorem C05_cancelled_means_added_and_deleted : forall e p c ls k,
   existsb (cancelled_ev k) (snd (ms_run (ms_init e p c) ls)) = true ->
-  existsb (is_add_of k) ls = true /\ existsb (is_del_of k) ls = true.
+  existsb (is_add_of k) ls = true /\ existsb (del_or_purge k) ls = true.
 Proof. exact cancelled_means_settled. Qed.
 Print Assumptions C05_cancelled_means_added_and_deleted.
 
-(* a key that was never Del-requested is relayed only after a completed batch Set it (the unrefined clause) *)
+(* a key that was never Del-requested and whose queue was never purged is relayed only after a completed batch Set it *)
 Theorem C05_store_not_early_undeleted : forall e p c ls evs1 k m evs2,
-  existsb (is_del_of k) ls = false ->
+  existsb (del_or_purge k) ls = false ->
   snd (ms_run (ms_init e p c) ls) = evs1 ++ EvRelay k m :: evs2 ->
   existsb (batch_sets k) evs1 = true.
 Proof. exact store_not_early_undeleted. Qed.
